@@ -470,7 +470,7 @@ func (c *Contracts) loadFile(path, pkg string, trusted bool) error {
 				}
 				// zero occurrences are fine for `every`, a misspelt anchor kind is not
 				kind := strings.TrimPrefix(as.Anchor, "before ")
-				if f := strings.Fields(kind); len(f) == 0 || !map[string]bool{"call": true, "send": true, "recv": true, "close": true, "mapupdate": true, "mapdelete": true, "return": true, "go": true, "store": true, "select": true, "next": true, "entry": true}[f[0]] {
+				if f := strings.Fields(kind); len(f) == 0 || !map[string]bool{"call": true, "send": true, "recv": true, "close": true, "mapupdate": true, "mapdelete": true, "return": true, "go": true, "store": true, "load": true, "select": true, "next": true, "entry": true}[f[0]] {
 					return fmt.Errorf("%s:%d: unknown anchor kind in `at every %s`", path, rc.line, as.Anchor)
 				}
 				if strings.HasPrefix(as.Anchor, "before ") && !map[string]bool{"call": true, "send": true, "recv": true, "close": true, "mapupdate": true, "mapdelete": true, "go": true}[strings.Fields(kind)[0]] {
